@@ -80,7 +80,7 @@ theorem c14_final_content (progs : List (List Cmd)) (sched : List Tid)
 /-! Non-vacuity: two writers on one key, a reader between them, and a rotation. -/
 example :
     let s := run {} (init [[.write [⟨1, [1], some [1]⟩], .readTop 1 [1]], [.write [⟨1, [1], none⟩]], [.readTop 1 [1], .rotate]])
-      [0, 0, 1, 0, 0, 2, 0, 0, 1, 1, 1, 2, 2, 1, 1, 1, 0, 2, 2]
+      [0, 0, 1, 0, 0, 2, 0, 0, 1, 1, 1, 2, 2, 1, 1, 1, 0, 2, 2, 2]
     s.lock = none ∧ s.batches.length = 2 ∧ (linRun s.log).1.length = 2 ∧ s.log.length = 12 ∧
     s.threads.all (fun th => th.prog.isEmpty) := by
   decide
